@@ -365,6 +365,9 @@ def _more_builders():
       d.questions = [q('x.sub.ab.c')]
       d.authorities = [rr('sub.ab.c', 2, 'ns1.sub.ab.c'), rr('sub.ab.c', 2, 'ns2.ab.c')]
       d.additional = [rr('ns1.sub.ab.c', 1, self.ip('glue1')), rr('ns2.ab.c', 1, self.ip('glue2')), rr('ns1.sub.ab.c', 28, self.A.IPAddr6(ctx.bytes(self.n('glue6'), 16), raw=True))]
+    elif shape == 'far_pointer':
+      # a message longer than 1 KiB: names first written beyond offset 1023 are referred to by 14-bit compression pointers
+      d.answers = [rr('x.y', 16, b'T' * 1100), rr('host.zone.example', 2, 'ns.zone.example'), rr('host.zone.example', 1, self.ip('rdata'))]
     elif shape == 'mx': d.answers = [rr('ab.c', 15, 'mail.ab.c')]
     elif shape == 'root': d.questions = [q('')]
     tup = lambda r: (r.name, r.qtype, r.qclass, r.ttl, r.rddata)
@@ -618,6 +621,7 @@ STACKS = {
   'dns_names':  lambda b: [b.eth(0x800), b.ipv4(17), b.udp(sport=53), b.dns('cname_ns_ptr')],
   'dns_chain':  lambda b: [b.eth(0x800), b.ipv4(17), b.udp(sport=53), b.dns('cname_chain')],
   'dns_referral': lambda b: [b.eth(0x800), b.ipv4(17), b.udp(sport=53), b.dns('referral')],
+  'dns_far':    lambda b: [b.eth(0x800), b.ipv4(17), b.udp(sport=53), b.dns('far_pointer')],
   'dns_mx':     lambda b: [b.eth(0x800), b.ipv4(17), b.udp(sport=53), b.dns('mx')],
   'dns_root':   lambda b: [b.eth(0x800), b.ipv4(17), b.udp(dport=5353), b.dns('root')],
   'dhcp_discover': lambda b: [b.eth(0x800), b.ipv4(17), b.udp(sport=68, dport=67), b.dhcp('discover')],
@@ -640,7 +644,7 @@ STACKS = {
 }
 
 
-NO_PAYLOAD = ('dhcp_discover', 'dhcp_offer', 'dhcp_rawhw', 'dhcp_rawopt', 'dhcp_noopt', 'dns_q1', 'dns_q2', 'dns_q1a1', 'dns_aaaa_txt', 'dns_names', 'dns_chain', 'dns_referral', 'dns_mx', 'dns_root', 'rip1', 'rip2', 'eap_success', 'eapol_start', 'nd_rs', 'nd_rs_slla', 'nd_ra', 'nd_ra_opts', 'nd_ns', 'nd_ns_slla', 'nd_na_tlla', 'nd_na_generic')
+NO_PAYLOAD = ('dhcp_discover', 'dhcp_offer', 'dhcp_rawhw', 'dhcp_rawopt', 'dhcp_noopt', 'dns_q1', 'dns_q2', 'dns_q1a1', 'dns_aaaa_txt', 'dns_names', 'dns_chain', 'dns_referral', 'dns_mx', 'dns_far', 'dns_root', 'rip1', 'rip2', 'eap_success', 'eapol_start', 'nd_rs', 'nd_rs_slla', 'nd_ra', 'nd_ra_opts', 'nd_ns', 'nd_ns_slla', 'nd_na_tlla', 'nd_na_generic')
 
 
 def h_stack(ctx, stack, n, repack=True):
